@@ -506,7 +506,8 @@ def _run_stream_exchange_sync(
         try:
             req_reader = ValidatedReader(ipc.open_stream(stream), app._server.ipc_validation)
             input_batch, custom_metadata = req_reader.read_next_batch_with_custom_metadata()
-        except pa.ArrowInvalid as exc:
+        except (pa.ArrowInvalid, StopIteration) as exc:
+            # StopIteration: a well-formed IPC stream that carries no batch at all.
             raise _RpcHttpError(exc, status_code=HTTPStatus.BAD_REQUEST) from exc
 
         # Extract both tokens before resolution — resolve_external_location
